@@ -308,3 +308,130 @@ Fixpoint dict_eqb (a b : dict) : bool :=
   | x :: a', y :: b' => kh_eqb x y && dict_eqb a' b'
   | _, _ => false
   end.
+
+(* ------------------------------------------------------------------------------------------ *)
+(* ssh_config_factory: the process-wide cache SSHConfig._config_files (path -> the LIVE parsed  *)
+(* object) as state, and its consumers: a direct lookup through the factory, and the           *)
+(* construction of a driver (BaseDriver._update_ssh_args_from_ssh_config), which looks its     *)
+(* host up and combines the entry with the values the user gave explicitly.  lookup returns    *)
+(* the Host object that sits INSIDE the cached dict (no copy), so a consumer that assigns an   *)
+(* attribute of it changes the cached parse; [writes] says whether a consumer does (generated  *)
+(* fact; the writer modelled for [writes = true] blanks the options given explicitly).         *)
+(* The files do not change during a history: [file] maps a path to the entries _parse finds.   *)
+(* ------------------------------------------------------------------------------------------ *)
+Record explicit := mkEx {
+  x_port : option N;       (* port=...            (None: not given) *)
+  x_user : bytes;          (* auth_username=...   ("" : not given)  *)
+  x_key : bytes            (* auth_private_key=... ("" : not given)  *)
+}.
+Definition DEFAULT_PORT := 22.
+
+(* what the driver ends up with: (port, auth_username, auth_private_key) *)
+Definition apply_cfg (h : host) (x : explicit) : N * bytes * bytes :=
+  (match x_port x with
+   | Some p => p
+   | None => if t_on (h_port h) then match h_port h with Some p => p | None => DEFAULT_PORT end else DEFAULT_PORT
+   end,
+   if t_b (x_user x) then x_user x else h_user h,
+   if t_b (x_key x) then x_key x
+   else if t_ob (h_idfile h) then match h_idfile h with Some f => f | None => [] end else []).
+
+(* a consumer that writes to the looked-up object: the explicitly given options are blanked *)
+Definition blank (h : host) (x : explicit) : host :=
+  mkHost (h_hostname h)
+         (match x_port x with Some _ => None | None => h_port h end)
+         (if t_b (x_user x) then [] else h_user h)
+         (h_idonly h)
+         (if t_b (x_key x) then None else h_idfile h).
+
+Inductive sop :=
+| SLookup (path name : bytes)                  (* ssh_config_factory(path).lookup(name) *)
+| SDriver (path name : bytes) (x : explicit)   (* BaseDriver(host=name, ssh_config_file=path, ...) *)
+| SDump (path : bytes).                        (* ssh_config_factory(path).hosts, every entry *)
+
+Inductive sout :=
+| OHost (r : bytes * host)
+| ODriver (r : N * bytes * bytes)
+| ODict (d : dict)
+| ORaise.
+
+Section ConfigCache.
+  Variable file : bytes -> list (bytes * host).
+  Variable writes : bool.
+
+  Definition cache := list (bytes * dict).
+
+  Fixpoint cget (p : bytes) (c : cache) : option dict :=
+    match c with
+    | [] => None
+    | (p', d) :: r => if beq p p' then Some d else cget p r
+    end.
+
+  Fixpoint cset (p : bytes) (d : dict) (c : cache) : cache :=
+    match c with
+    | [] => [(p, d)]
+    | (p', d') :: r => if beq p p' then (p', d) :: r else (p', d') :: cset p d r
+    end.
+
+  (* ssh_config_factory: the cached object if the path is known, else parse + remember *)
+  Definition factory (c : cache) (p : bytes) : option (cache * dict) :=
+    match cget p c with
+    | Some d => Some (c, d)
+    | None => match build (file p) with Ok d => Some (cset p d c, d) | _ => None end
+    end.
+
+  Definition sstep (c : cache) (o : sop) : cache * sout :=
+    match o with
+    | SLookup p n =>
+        match factory c p with
+        | Some (c', d) => (c', match lookup d n with Ok r => OHost r | _ => ORaise end)
+        | None => (c, ORaise)
+        end
+    | SDriver p n x =>
+        match factory c p with
+        | Some (c', d) =>
+            match lookup d n with
+            | Ok (k, h) => (if writes then cset p (dset k (blank h x) d) c' else c', ODriver (apply_cfg h x))
+            | _ => (c', ORaise)
+            end
+        | None => (c, ORaise)
+        end
+    | SDump p =>
+        match factory c p with
+        | Some (c', d) => (c', ODict d)
+        | None => (c, ORaise)
+        end
+    end.
+
+  Fixpoint srun (c : cache) (ops : list sop) : cache * list sout :=
+    match ops with
+    | [] => (c, [])
+    | o :: r => let (c', out) := sstep c o in let (c'', outs) := srun c' r in (c'', out :: outs)
+    end.
+
+  (* the specification: no cache, every operation reads the file *)
+  Definition sspec_one (o : sop) : sout :=
+    match o with
+    | SLookup p n => match run (file p) n with Ok r => OHost r | _ => ORaise end
+    | SDriver p n x => match run (file p) n with Ok (k, h) => ODriver (apply_cfg h x) | _ => ORaise end
+    | SDump p => match build (file p) with Ok d => ODict d | _ => ORaise end
+    end.
+  Definition sspec (ops : list sop) : list sout := map sspec_one ops.
+End ConfigCache.
+
+Definition N3_eqb (a b : N * bytes * bytes) : bool :=
+  let '(p, u, k) := a in let '(p', u', k') := b in (p =? p') && beq u u' && beq k k'.
+Definition sout_eqb (a b : sout) : bool :=
+  match a, b with
+  | OHost r, OHost r' => kh_eqb r r'
+  | ODriver r, ODriver r' => N3_eqb r r'
+  | ODict d, ODict d' => dict_eqb d d'
+  | ORaise, ORaise => true
+  | _, _ => false
+  end.
+Fixpoint souts_eqb (a b : list sout) : bool :=
+  match a, b with
+  | [], [] => true
+  | x :: a', y :: b' => sout_eqb x y && souts_eqb a' b'
+  | _, _ => false
+  end.
